@@ -260,14 +260,15 @@ def _series_instances():
             (Q, (F, F, F, F, F), "inside", (), (), False),        # span strictly inside the data: output clipped only
             (Q, (F, T, F, F, F), "inside", (), (), False),
             (Q, (F, F, F, F), "none", (2,), (), False), (Q, (F, F, F, F), "none", (), (1,), False), (Q, (F, F, F, F, F), "none", (0,), (0, 3), False),
-            (Q, (F, F, T, F), "none", (), (), True), (Q, (F, F, F, F), "wider", (1,), (), True),
             (Q, (F, F, F), "level_beyond", (), (), False)]         # a level constraint one period after the data extends the filter span
     return out
 
 
 @contract("C14", targets=[PH + "hpf", PH + "_data_hpf", PH + "_prepare_constraints", PH + "_remove_first_date_change", PH + "_get_default_smooth",
                           "irispie.dates:get_encompassing_span", "irispie.series.main:Series.iter_own_data_variants_from_until"],
-          instances=_series_instances(), opts={"max_paths": 600})
+          instances=_series_instances(),
+          thorough=[(D.QuarterlyPeriod, (False, False, True, False), "none", (), (), True)],      # log at series level: slow queries (13 s), thorough tier only; log with constraints: array-level contract
+          opts={"max_paths": 600})
 def hpf_on_series(K, cls, pattern, span_kind, lev, chg, log):
     """hpf(x, span=, smooth=, level=, change=, log=) on series: the filter runs on the span that encompasses the data,
     the requested span and the constraint series; the returned trend (every period of the requested span) and gap
@@ -341,3 +342,201 @@ def hpf_on_series(K, cls, pattern, span_kind, lev, chg, log):
                 K.ensure(f"period {j} inside the span: gap as filtered on the whole data", K.cell_eq(g1, g2))
             else:
                 K.ensure(f"period {j} outside the span is clipped", K.And(K.cell_is_nan(a), K.cell_is_nan(g1)))
+
+
+# ------------------------------------------------------------------------------ the l1 trend filter
+def _difference_rows(order, n):
+    return first_differences(n) if order == 1 else second_differences(n)
+
+
+@contract("C14", targets=[PL + "_first_order_matrix_setup", PL + "_second_order_matrix_setup", PL + "_MATRIX_SETUP_DISPATCH"],
+          instances=[(o, n) for o in (1, 2) for n in (3, 4, 5, 7)])
+def difference_operator_of_the_given_order(K, order, n):
+    """D is the (n-order) x n difference operator of the given order: (D x)_i = +-(x_{i+1} - x_i), resp.
+    +-(x_i - 2 x_{i+1} + x_{i+2})."""
+    d, Dm = K.call(L1._MATRIX_SETUP_DISPATCH[order], n)
+    want = _difference_rows(order, n)
+    K.ensure("shape", K.shape(Dm) == (n - order, n))
+    # the sign convention of D is immaterial for the filter (only |D trend| enters): either sign, but one sign throughout
+    same = K.And(*[K.real_eq(K.cell_val(K.cell(Dm, i, t)), want[i][t]) for i in range(n - order) for t in range(n)])
+    flipped = K.And(*[K.real_eq(K.cell_val(K.cell(Dm, i, t)), -want[i][t]) for i in range(n - order) for t in range(n)])
+    K.ensure("entries of the difference operator (up to one global sign)", K.Or(same, flipped))
+
+
+@contract("C14", targets=[PL + "lonf", PL + "_lonf_for_variant", PL + "_first_order_matrix_setup", PL + "_second_order_matrix_setup",
+                          "irispie.series.main:Series.iter_own_data_variants_from_until", "irispie.series.main:_from_start_and_values"],
+          instances=[(1, 3, 1), (1, 4, 1), (2, 4, 1), (2, 5, 1), (1, 3, 2), (2, 4, 2)], opts={"max_paths": 600})
+def lonf_trend_is_the_l1_optimum(K, order, n, nv):
+    """lonf(x, order, smooth) for a fully observed series of n periods and nv variants: trend and gap have the span
+    and the variants of the input, trend + gap is the data, and the trend satisfies the optimality conditions of
+        minimise 1/2 sum (y_t - trend_t)^2 + smooth * sum |(D trend)_i|
+    (D the difference operator of the given order): y - trend == D'v for some v with |v_i| <= smooth,
+    v_i == smooth where (D trend)_i > 0 and v_i == -smooth where (D trend)_i < 0.  daqp.solve enters through its
+    assumed contract; the witness v is the solver's answer."""
+    cls = D.QuarterlyPeriod
+    start = K.int("start", 8000, 8100)
+    lam = K.real("smooth", positive=True, sample=(0.2, 3))
+    data = K.array("y", (n, nv), nan=False)
+    y0 = K.snapshot(data)
+    x = K.obj(Series, start=K.obj(cls, serial=start), data=data, data_type=np.float64, metadata={}, __description__="")
+    trend, gap = K.call(L1.lonf, x, order, lam)
+    ts, td = state(K, trend)
+    gs, gd = state(K, gap)
+    K.ensure("trend and gap keep the variants of the input", K.And(K.shape(td)[1] == nv, K.shape(gd)[1] == nv))
+    rows = _difference_rows(order, n)
+    for c in range(min(nv, K.shape(td)[1] if isinstance(K.shape(td)[1], int) else nv)):
+        tr = [V(K, ts, td, start + t, c) for t in range(n)]
+        gp = [V(K, gs, gd, start + t, c) for t in range(n)]
+        K.ensure(f"variant {c}: trend and gap have a value in every period", K.And(*[K.Not(K.cell_is_nan(v)) for v in tr + gp]))
+        tv, gv = [K.cell_val(v) for v in tr], [K.cell_val(v) for v in gp]
+        yv = [K.cell_val(K.cell(y0, t, c)) for t in range(n)]
+        K.ensure(f"variant {c}: trend + gap == data", K.And(*[K.real_eq(tv[t] + gv[t], yv[t]) for t in range(n)]))
+        dt = [sum(r[t] * tv[t] for t in range(n) if r[t]) for r in rows]
+        # existence of the dual certificate v: gap == D'v, |v| <= smooth, sign conditions
+        if K.symbolic:
+            import z3
+            v = [z3.Real(f"v!{c}_{i}") for i in range(n - order)]
+            cert = z3.And(*[gv[t] == sum(rows[i][t] * v[i] for i in range(n - order) if rows[i][t]) for t in range(n)],
+                          *[z3.And(v[i] <= lam, v[i] >= -lam, z3.Implies(dt[i] > 0, v[i] == lam), z3.Implies(dt[i] < 0, v[i] == -lam)) for i in range(n - order)])
+            K.ensure(f"variant {c}: the trend satisfies the optimality conditions of the l1 filter of order {order}", z3.Exists(v, cert))
+        else:
+            # natively: solve D' v = gap for v (D' has full column rank) and test the conditions with a tolerance
+            Dm = np.array(rows, dtype=float)
+            vv, *_ = np.linalg.lstsq(Dm.T, np.array(gv), rcond=None)
+            ok = np.allclose(Dm.T @ vv, gv, atol=1e-6) and np.all(np.abs(vv) <= lam + 1e-6) and all(
+                (abs(dt[i]) <= 1e-6) or (dt[i] > 0 and abs(vv[i] - lam) <= 1e-5) or (dt[i] < 0 and abs(vv[i] + lam) <= 1e-5) for i in range(n - order))
+            K.ensure(f"variant {c}: the trend satisfies the optimality conditions of the l1 filter of order {order}", bool(ok))
+    t = K.int("t", 7990, 8120)
+    K.ensure("nothing outside the span of the input", K.Implies(K.Or(t < start, t >= start + n), K.And(K.cell_is_nan(V(K, ts, td, t, 0)), K.cell_is_nan(V(K, gs, gd, t, 0)))))
+
+
+@contract("C14", targets=[PH + "hpf", PH + "_data_hpf"], instances=[(3,), (4,)], opts={"max_paths": 600})
+def hpf_filters_every_variant(K, n):
+    """A series with two variants: each variant is filtered on its own (same smoothing parameter), and trend and
+    gap keep both variants."""
+    cls = D.QuarterlyPeriod
+    start = K.int("start", 8000, 8100)
+    lam = K.real("smooth", positive=True, sample=(0.5, 200))
+    data = K.array("y", (n, 2), nan=False)
+    y0 = K.snapshot(data)
+    x = K.obj(Series, start=K.obj(cls, serial=start), data=data, data_type=np.float64, metadata={}, __description__="")
+    trend, gap = K.call(HP.hpf, x, smooth=lam)
+    ts, td = state(K, trend)
+    gs, gd = state(K, gap)
+    K.ensure("trend and gap keep the variants of the input", K.And(K.shape(td)[1] == 2, K.shape(gd)[1] == 2))
+    for c in range(2):
+        ycells = [K.cell(y0, t, c) for t in range(n)]
+        tr = [V(K, ts, td, start + t, c) for t in range(n)]
+        gp = [V(K, gs, gd, start + t, c) for t in range(n)]
+        optimality_conditions(K, n, (False,) * n, (), (), False, lam, ycells, tr, gp, [], [])
+
+
+# ------------------------------------------------------------------------------ native replay on longer series (bounded stand-in, NOT a proof)
+@bounded("C14", bound="hpf: 40 random series of 6-40 periods (yearly/quarterly/monthly), 1-2 variants, up to 30% interior missing values, 0-2 level and 0-2 change constraints, log on/off, spans inside/equal/wider than the data; lonf: 20 random fully observed series of 5-30 periods, orders 1 and 2, 1-2 variants")
+def filters_native(B):
+    """The optimality conditions of the contracts, evaluated in floating point on the real hpf / lonf for series far
+    longer than the dimensions the contracts fix."""
+    import irispie as ir
+    rng = B.rng
+    for k in range(40):
+        B.case()
+        cls = rng.choice([D.YearlyPeriod, D.QuarterlyPeriod, D.MonthlyPeriod])
+        F = int(cls.frequency)
+        n = rng.randint(6, 40)
+        nv = rng.randint(1, 2)
+        log = rng.random() < 0.3
+        start = cls(2000 * F + rng.randint(0, 7))
+        vals = np.array([[rng.uniform(1.0, 5.0) for _ in range(nv)] for _ in range(n)])
+        for t in range(1, n - 1):
+            if rng.random() < 0.3 * (k % 2):
+                vals[t, :] = np.nan
+        x = Series(start=start, values=vals.copy())
+        lam = rng.choice([0.5, 10.0, 1600.0])
+        lev = sorted(rng.sample(range(n), rng.randint(0, 2)))
+        chg = sorted(rng.sample(range(1, n), rng.randint(0, 2)))
+        kw = dict(smooth=lam, log=log)
+        lv = {j: rng.uniform(1.0, 5.0) for j in lev}
+        cv = {j: (rng.uniform(0.9, 1.1) if log else rng.uniform(-0.5, 0.5)) for j in chg}
+        if lev:
+            lser = Series(num_variants=1)
+            for j, v in lv.items():
+                lser[start + j] = v
+            kw["level"] = lser
+        if chg:
+            cser = Series(num_variants=1)
+            for j, v in cv.items():
+                cser[start + j] = v
+            kw["change"] = cser
+        try:
+            trend, gap = ir.hpf(x, **kw)
+        except np.linalg.LinAlgError:
+            continue            # constraints that make the system singular (e.g. contradictory): rejected, not wrong
+        except Exception as ex:
+            B.fail(f"hpf: exception {type(ex).__name__}: {ex}", {"n": n, "level": lev, "change": chg, "log": log})
+            return
+        E = np.array(constraint_matrix(n, lev, chg), dtype=float).reshape(-1, n)
+        if E.shape[0]:
+            _, sv, vt = np.linalg.svd(E)
+            rank = int((sv > 1e-10).sum())
+            null = vt[rank:].T
+        else:
+            null = np.eye(n)
+        G = np.array(gram(second_differences(n), n), dtype=float)
+        for c in range(nv):
+            tr = trend.get_data_from_until((start, start + n - 1))[:, c]
+            gp = gap.get_data_from_until((start, start + n - 1))[:, c]
+            y = vals[:, c]
+            obs = ~np.isnan(y)
+            tz, z = (np.log(tr), np.log(np.where(obs, y, 1.0))) if log else (tr, np.where(obs, y, 0.0))
+            grad = np.where(obs, tz - z, 0.0) + lam * (G @ tz)
+            scale = max(1.0, lam) * max(1.0, np.abs(tz).max())
+            bad = None
+            if np.isnan(tr).any():
+                bad = "trend has missing values"
+            elif lev and not np.allclose([tz[j] for j in lev], [np.log(lv[j]) if log else lv[j] for j in lev], atol=1e-8):
+                bad = "level constraint not met"
+            elif chg and not np.allclose([tz[j] - tz[j - 1] for j in chg], [np.log(cv[j]) if log else cv[j] for j in chg], atol=1e-8):
+                bad = "change constraint not met"
+            elif not np.all(np.abs(null.T @ grad) <= 1e-7 * scale):
+                bad = "gradient of the HP objective does not vanish along the feasible directions"
+            elif not np.array_equal(np.isnan(gp), ~obs):
+                bad = "gap is not defined exactly where the data are"
+            elif not np.allclose((tr * gp if log else tr + gp)[obs], y[obs], rtol=1e-9):
+                bad = "trend and gap do not reproduce the data"
+            if bad:
+                B.fail("hpf: " + bad, {"class": cls.__name__, "n": n, "variant": c, "smooth": lam, "level": lv, "change": cv, "log": log, "data": vals[:, c].tolist()})
+                return
+    for k in range(20):
+        B.case()
+        n = rng.randint(5, 30)
+        nv = rng.randint(1, 2)
+        order = 1 + k % 2
+        lam = rng.choice([0.1, 1.0, 5.0])
+        vals = np.array([[rng.uniform(-3.0, 3.0) for _ in range(nv)] for _ in range(n)])
+        x = Series(start=D.QuarterlyPeriod(8000 + k), values=vals.copy())
+        trend, gap = ir.lonf(x, order, lam)
+        if trend.data.shape != (n, nv) or gap.data.shape != (n, nv):
+            B.fail("lonf: trend/gap do not have the periods and variants of the input", {"n": n, "variants": nv, "trend_shape": list(trend.data.shape)})
+            return
+        Dm = np.array(_difference_rows(order, n), dtype=float)
+        for c in range(nv):
+            tr, gp, y = trend.data[:, c], gap.data[:, c], vals[:, c]
+            vv, *_ = np.linalg.lstsq(Dm.T, gp, rcond=None)
+            dt = Dm @ tr
+            ok = np.allclose(tr + gp, y, atol=1e-9) and np.allclose(Dm.T @ vv, gp, atol=1e-6) and np.all(np.abs(vv) <= lam + 1e-5) and all(
+                (abs(dt[i]) <= 1e-5) or (dt[i] > 0 and abs(vv[i] - lam) <= 1e-4) or (dt[i] < 0 and abs(vv[i] + lam) <= 1e-4) for i in range(n - order))
+            if not ok:
+                B.fail("lonf: trend + gap != data or the l1 optimality conditions fail", {"n": n, "order": order, "smooth": lam, "variant": c, "data": y.tolist()})
+                return
+    return {"exhaustive_within_bound": False}
+
+
+@contract("C14", targets=[PH + "_ConstrainedHodrickPrescottFilter.filter_data"], instances=[()], canary=True)
+def canary_trend_equals_data(K):
+    """Deliberately wrong: 'the trend is the data itself' must be refuted with a replayable input (guards against a
+    vacuous assumption in the solver contract)."""
+    lam = K.real("smooth", positive=True, sample=(0.5, 200))
+    y = K.array_pattern("y", (False, False, False))
+    hp = K.call(FILT, 3, lam)
+    trend, gap = K.call(FILT.filter_data, hp, y)
+    K.ensure("WRONG: trend == data", K.real_eq(K.cell_val(K.cell(trend, 1, 0)), K.cell_val(K.cell(y, 1))))
